@@ -34,6 +34,14 @@ type SliceVal struct {
 	Nil   *Term // Bool: slice is nil (only informational)
 }
 
+// BytesVal: an abstract []byte: a view of the first N bytes of a byte-buffer object whose content
+// is a string term (cells[0]).
+type BytesVal struct {
+	Obj *Object
+	N   *Term // BV: length of the view
+	Cap int
+}
+
 type IfaceVal struct {
 	Nil *Term
 	Typ types.Type
@@ -268,6 +276,12 @@ func iteValue(c *Term, a, b Value) Value {
 			r.Bind[i] = iteValue(c, x.Bind[i], y.Bind[i])
 		}
 		return r
+	case *BytesVal:
+		y := b.(*BytesVal)
+		if x.Obj != y.Obj {
+			unsupported("merge of byte slices over different buffers")
+		}
+		return &BytesVal{Obj: x.Obj, N: Ite(c, x.N, y.N), Cap: x.Cap}
 	case *OpaqueVal:
 		y := b.(*OpaqueVal)
 		if x == y {
